@@ -764,12 +764,44 @@ KEEP_AGENTS = [
     ('R11-6', 'DIFF', 'R_C11_6.diff', None, ALL, 'duplicate constructor body replaced by delegation to the sibling constructor, if/else -> match on bool, temporaries inlined, field init shorthand: src/kinematics_with_shape.rs: KinematicsWithShape::ne'),
     ('R11-7', 'DIFF', 'R_C11_7.diff', None, ALL, 'guard clause / early return, nested if-else -> short-circuit &&, if/else -> bool::then_some, if-let chain with returns -> Option combinators (or_else / unwrap_or_else): src/collisions.rs: CollisionTas'),
     ('R11-8', 'DIFF', 'R_C11_8.diff', None, ALL, 'extract helper function, temporaries removed, range bound replaces an in-loop condition, iter()+as casts -> into_iter()+usize::from: src/collisions.rs: the repeated forward_with_joint_poses then cast'),
+    ('R01-5', 'DIFF', 'R_C01_5.diff', None, ALL, 'extract helper function + index loops -> iterator chain (iter_mut/enumerate/all), nested if/else flattened to guard clause: The triplicated while angle > PI / while angle < -PI wrap-around is extrac'),
+    ('R01-6', 'DIFF', 'R_C01_6.diff', None, ALL, 'index loop with break -> find_map + let-else guard, labelled break removed, deferred-init lets -> if-expression / tuple, index loops -> iter_mut().zip(): inverse_continuing: previous chosen by an if'),
+    ('R01-7', 'DIFF', 'R_C01_7.diff', None, ALL, 'de-duplication: four copy-pasted blocks -> std::array::from_fn closures with array destructuring, deferred-init lets removed: inverse_intern (6-DOF closed form): the four hand-unrolled blocks computin'),
+    ('R01-8', 'DIFF', 'R_C01_8.diff', None, ALL, 'equivalent library calls/constants (TAU for 2.0*PI, any() over array for || chain, !any(nan||inf) for all(is_finite)), nested fn inlined into a loop with a local temporary, NaN-initialised mutable arr'),
+    ('R04-5', 'DIFF', 'R_C04_5.diff', None, ALL, 'extract helper function/method; index loops -> iter_mut().zip(); deferred-init `let` + if/else -> if-expression in a method: src/kinematics_impl.rs: the duplicated pick constraint centres when prev[0'),
+    ('R04-6', 'DIFF', 'R_C04_6.diff', None, ALL, 'two comparator closures merged into one per-solution cost closure; if/else + unwrap -> match with guard; temporaries removed: src/kinematics_impl.rs sort_by_closeness: instead of choosing between two '),
+    ('R04-7', 'DIFF', 'R_C04_7.diff', None, ALL, 'extract helper (wrap_to_pi) used at three sites; deferred-init locals -> tuple-valued if-expression; independent statements re-ordered: src/kinematics_impl.rs: the `while angle > PI {-= 2PI} while ang'),
+    ('R04-8', 'DIFF', 'R_C04_8.diff', None, ALL, 'nested fn inlined into a `for _ in 0..2` loop; std constant TAU for 2.0 * PI; while -> if where at most one iteration is possible; duplicated if/else-if arms merged with an early continue: src/kinemat'),
+    ('R03-5', 'DIFF', 'R_C03_5.diff', None, ALL, 'extract helper method; six repeated statements -> std::array::from_fn with array destructuring: The six copy-pasted sign correction and offset lines at the top of both Kinematics::forward and Kinema'),
+    ('R03-6', 'DIFF', 'R_C03_6.diff', None, ALL, 'data carried differently (named temporaries -> fixed-size array) and chained expression -> index loop accumulation: In forward_with_joint_poses the six elementary link transforms are first built on th'),
+    ('R03-7', 'DIFF', 'R_C03_7.diff', None, ALL, 'extract helper function (wrist-centre position) plus removal of single-use temporaries: The closed-form position of the wrist centre in Kinematics::forward (psi3, k, q23_psi3, cx1/cy1/cz1, cx0/cy0/cz0'),
+    ('R03-8', 'DIFF', 'R_C03_8.diff', None, ALL, 'different but equivalent library calls (sin_cos reuse, method-call syntax, From/Into conversions, Vector3::z_axis()) and re-ordering of independent statements: In Kinematics::forward the block of q.si'),
+    ('R07-5', 'DIFF', 'R_C07_5.diff', None, ALL, 'extract helper + merge duplicated branches with a guard clause (continue) + index loop -> zip/enumerate iterator: Constraints::compute_centers: the `a == b` case becomes a guard with `continue`; the s'),
+    ('R07-6', 'DIFF', 'R_C07_6.diff', None, ALL, 'early return -> boolean expression, mutable temporary removed (helper extracted), enumerate+index -> zip, into_iter().cloned() -> iter().copied(), std constant TAU for 2.0 * PI: Constraints::inside_bo'),
+    ('R07-7', 'DIFF', 'R_C07_7.diff', None, ALL, 'if / else-if chain -> match on partial_cmp, data carried differently (per-joint (centre, tolerance) tuples built with array::from_fn then split, instead of two mutable arrays), setter delegates to con'),
+    ('R07-8', 'DIFF', 'R_C07_8.diff', None, ALL, 'Option/Result combinators <-> match, mutable struct patched afterwards -> temporaries + single struct literal, ok_or_else()? -> let-else, index loop -> enumerate, if/else -> if-expression plus inverte'),
+    ('R15-5', 'DIFF', 'R_C15_5.diff', None, ALL, 'iterator chain + collect + second loop -> single index for loop (loop fusion), temporaries removed: compute_jacobian: the `(0..6).into_iter().map(..).collect::<Vec<_>>()` of (delta_position, delta_ori'),
+    ('R15-6', 'DIFF', 'R_C15_6.diff', None, ALL, 'deferred-initialised variable with if-let/else + nested match + early return -> single match expression with map_err and `?`; clone() of a Copy matrix dropped: Jacobian::velocities_from_vector: `let j'),
+    ('R15-7', 'DIFF', 'R_C15_7.diff', None, ALL, 'extract helper function (duplicated code in two methods moved into one private fn): The identical take translation.vector and rotation.scaled_axis() of the Isometry3 and pack them into a Vector6 blo'),
+    ('R15-8', 'DIFF', 'R_C15_8.diff', None, ALL, 'data carried differently (tuple of two Vector3 -> one Vector6 column, matrix built with from_columns instead of zeros + view copies), loop-invariant hoisted out of the closure: compute_jacobian: the c'),
+    ('R16-5', 'DIFF', 'R_C16_5.diff', None, ALL, 'extract helper methods (per-joint-vector couple / decoupled) and call them from all six entry points: src/parallelogram.rs: the repeated `x[coupled] += scaling * x[driven]` closure body of the four in'),
+    ('R16-6', 'DIFF', 'R_C16_6.diff', None, ALL, 'iterator for_each closure -> explicit for loop; compound assignment expanded with a named temporary; independent statements re-ordered: src/parallelogram.rs: in the four inverse entry points `solution'),
+    ('R16-7', 'DIFF', 'R_C16_7.diff', None, ALL, 'in-place mutation -> consuming iterator chain (into_iter().map().collect()); fields destructured into locals; commuted product: src/parallelogram.rs: every method first binds `let &Parallelogram { sca'),
+    ('R16-8', 'DIFF', 'R_C16_8.diff', None, ALL, 'higher-order restructuring: the inner-robot call is passed as a closure into two generic private helpers; for_each -> for loop over &mut Vec: src/parallelogram.rs: new private `Parallelogram::solve(&s'),
+    ('R17-5', 'DIFF', 'R_C17_5.diff', None, ALL, 'extract helper function + let-else guard clauses, duplicate computation removed: src/frame.rs: the two copies of the basis construction in Frame::frame (edge vectors, cross-product colinearity check, '),
+    ('R17-6', 'DIFF', 'R_C17_6.diff', None, ALL, 'explicit temporaries + && chain -> table of index pairs with iterator all(); data carried as arrays: src/frame.rs: distances_match (the congruence guard behind is_valid_isometry / NotIsometry) no long'),
+    ('R17-7', 'DIFF', 'R_C17_7.diff', None, ALL, 'equivalent library calls, temporaries removed / expressions inlined: src/frame.rs: Frame::translation builds the isometry with Translation3::from(q - p).into() instead of Isometry3::from_parts(.., Uni'),
+    ('R17-8', 'DIFF', 'R_C17_8.diff', None, ALL, 'index loops -> iter_mut/zip iterators; computation moved into closures (duplicated a/b code -> one distance closure), deferred-init let + if/else -> if expression: src/kinematics_impl.rs (helpers that'),
 ]
 KEEP += KEEP_AGENTS
 
 # rewrites by independent authors that are NOT silent yet (the checks report them or stop): kept in the catalogue, reported as
 # open by tools/run_selftest.py, one reason each (DESIGN 8.5, eighth campaign)
 OPEN_REWRITES = {
+    'R04-6': 'one per-solution cost closure with `match &self.constraints { Some(c) if c.sorting_weight != BY_PREV => weighted, _ => distance }` used on both sides of one sort_by: R04.4 reads one cost per comparator, selected by the branch the comparator sits in',
+    'R17-5': 'source and target bases through a helper orthonormal_basis(v1, v2) -> Option<Matrix3> (as R17-2): R17.2 reads the two column triples in the body',
+    'R17-6': 'the congruence guard as SIDES.iter().all(|&(from, to)| ..) over arrays of the points: R17.3 reads three conjoined comparisons',
+    'R17-7': 'Matrix3::from_rows of the axes instead of from_columns(..).transpose(), Rotation3::from_matrix_unchecked(..).into(): R17.2 reads from_columns * transpose',
     'R04-3': 'near-normaliser as a value-returning fn applied through array::from_fn: role and call sites are read as fn(&mut f64, f64)',
     'R17-2': 'source and target bases through orthonormal_basis(o, x, y) -> Option<Matrix3> and ok_or_else(..)?: R17.1/R17.2 read the two column triples',
 }
